@@ -97,6 +97,10 @@ structure Node where
   scanCd : Int
   sws : List Sw
   folders : List Folder
+  /-- `red_scan_countdown` (reveal-to-red scan, loaded with `config.node_scan_duration` by the top-level `["scan"]` request). What
+  it writes at completion — `revealed_to_red` — is not health; the countdown is modelled because it ticks in the same block
+  of `apply_timestep` as the whole-node scan and must not disturb it. -/
+  redCd : Int := 0
 deriving DecidableEq, Repr
 
 /-! ### software -/
@@ -322,6 +326,8 @@ inductive Op
   | shutdown | startup | reset
   /-- `["os","scan"]` -/
   | osScan
+  /-- top-level `["scan"]` = `Node.reveal_to_red` -/
+  | redScan
   /-- `["service"|"application", name, r]` -/
   | sw (isApp : Bool) (name : String) (r : SwReq)
   /-- Python API: `set_health_state(h)` — the external writers (connection capacity, web-server dependency, database restore) -/
@@ -394,6 +400,10 @@ def Node.scanPhase (m : Node) : Node :=
     if m.scanCd - 1 = 0 then (m1.mapSws Sw.scan).mapFolders Folder.instantScan else m1
   else m
 
+/-- the reveal-to-red block of `apply_timestep` (node ON), right after the node-scan block: `if cd > 0: cd -= 1; if cd == 0:
+reveal everything` — the reveal touches no health field -/
+def Node.redPhase (m : Node) : Node := if m.redCd > 0 then { m with redCd := m.redCd - 1 } else m
+
 /-- the per-item ticks (node ON): services, applications, then the file system (live folders only). -/
 def Node.itemPhase (m : Node) : Node :=
   (m.mapSws Sw.tick).mapFolders (fun F => if F.deleted then F else F.tick)
@@ -401,7 +411,7 @@ def Node.itemPhase (m : Node) : Node :=
 /-- `Node.apply_timestep` -/
 def Node.tick (n : Node) : Node :=
   let m := n.powerPhase
-  if m.power = .on then m.scanPhase.itemPhase else m
+  if m.power = .on then m.scanPhase.redPhase.itemPhase else m
 
 /-! ### requests -/
 
@@ -432,6 +442,7 @@ def Node.apply (n : Node) : Op → Node
   | .startup => if n.power = .off then n.powerOn else n
   | .reset => if n.power = .on then { n with resetting := true }.powerOff else n
   | .osScan => if n.power = .on then { n with scanCd := max n.scanDur 1 } else n
+  | .redScan => if n.power = .on then { n with redCd := n.scanDur } else n
   | .sw isApp name r => if n.power = .on then n.mapSws (Sw.request isApp name r) else n
   | .swSet name h => n.mapSws (fun x => if x.name = name then x.setHealth h.toSwH else x)
   | .appInstall name => n.mapSws (fun x => if x.name = name then x.install else x)
@@ -450,7 +461,7 @@ def Node.apply (n : Node) : Op → Node
 /-- The `RequestResponse.status` of an operation (`ok` for ticks and Python-API calls). -/
 def Node.respond (n : Node) : Op → Resp
   | .tick | .swSet _ _ | .appInstall _ | .appRun _ | .fileSet _ _ _ => .ok
-  | .shutdown | .reset | .osScan => Resp.ofBool (n.power = .on)
+  | .shutdown | .reset | .osScan | .redScan => Resp.ofBool (n.power = .on)
   | .startup => Resp.ofBool (n.power = .off)
   | .sw isApp name r =>
     if n.power ≠ .on then .failure else
